@@ -269,6 +269,27 @@ func (t *Thread) Yield(args []Value) ([]Value, error) {
 // This turns off the thread, cleaning up its close stack.  The thread must be
 // running.
 func (t *Thread) end(args []Value, err error, exception interface{}) {
+	if _, terminated := exception.(ContextTerminationError); terminated {
+		// The context was terminated: no Lua code may run in it any more, so
+		// the pending to-be-closed values are discarded.
+		t.closeStack.truncate(0)
+	} else {
+		// The close handlers are Lua code: they must run while the thread is
+		// still running and no lock is held (they may use coroutines), and
+		// they may run out of resources, which has to reach the caller.
+		func() {
+			defer func() {
+				if r := recover(); r != nil {
+					if _, terminated := r.(ContextTerminationError); !terminated {
+						panic(r)
+					}
+					t.closeStack.truncate(0)
+					exception = r
+				}
+			}()
+			err = t.cleanupCloseStack(nil, 0, err) // TODO: not nil
+		}()
+	}
 	caller := t.caller
 	t.mux.Lock()
 	caller.mux.Lock()
@@ -283,13 +304,6 @@ func (t *Thread) end(args []Value, err error, exception interface{}) {
 	close(t.resumeCh)
 	t.status = ThreadDead
 	t.caller = nil
-	if _, terminated := exception.(ContextTerminationError); terminated {
-		// The context was terminated: no Lua code may run in it any more, so
-		// the pending to-be-closed values are discarded.
-		t.closeStack.truncate(0)
-	} else {
-		err = t.cleanupCloseStack(nil, 0, err) // TODO: not nil
-	}
 	t.closeErr = err
 	// Release before handing control back: afterwards the caller is running
 	// and owns the runtime.
